@@ -60,10 +60,10 @@ func genExt4Cfg(r *core.Rng, tier string, t *core.Trace, wide bool) {
 		if r.Chance(30) { // non-default blocks per group
 			t.Cfg["bpg"] = core.PickOf[int64](r, 8192, 4096, 2048)
 		}
-		t.Cfg["logflex"] = core.PickOf[int64](r, 0, 0, 0, 1, 2, 3) // groups per flex group = 2^n (0 = default 16)
+		t.Cfg["logflex"] = core.PickOf[int64](r, 0, 0, 1, 1, 2, 3) // groups per flex group = 2^n (0 = default 16)
 		t.Cfg["iratio"] = core.PickOf[int64](r, 0, 0, 8192, 16384, 65536, 1024, 2048)
 		t.Cfg["icount"] = core.PickOf[int64](r, 0, 0, 0, 128, 1000)
-		if r.Chance(25) {
+		if r.Chance(35) {
 			// a last block group of 0..3000 blocks behind 1..5 full ones: the sizes around which Create has to
 			// decide whether the last group can hold its own metadata
 			bs := int64(1024)
